@@ -1,11 +1,646 @@
-//! placeholder
+//! C51 — parallel helpers process every item exactly once (DESIGN §4).
+//! Small instances of every helper in `gix_features::parallel`, run unmodified under the seeded scheduler.
 use crate::driver::{ExecCtx, Report, Scenario, Tier};
+use crate::prng::{Fnv, Rng, STREAM_SWARM, STREAM_WORKLOAD};
+use crate::rt;
+use gix_features::parallel::{self, InOrderIter, Reduce};
 use serde_json::{json, Value};
+use std::sync::atomic::{AtomicBool, AtomicIsize, AtomicUsize, Ordering::SeqCst};
+use std::sync::{Arc, Mutex};
+
 pub struct Parallel;
+const P: &str = "C51";
+
+struct Shared {
+    consumed: Vec<AtomicUsize>,
+    fed: Mutex<Vec<i64>>,
+    finalized: AtomicUsize,
+    reducer_finalized: AtomicUsize,
+    notes: Mutex<Vec<String>>,
+    threads_left_max: AtomicIsize,
+    threads_left_init: AtomicIsize,
+    stolen: AtomicUsize,
+}
+impl Shared {
+    fn new(n: usize) -> Arc<Self> {
+        Arc::new(Shared {
+            consumed: (0..n.max(1) + 8).map(|_| AtomicUsize::new(0)).collect(),
+            fed: Mutex::new(vec![]),
+            finalized: AtomicUsize::new(0),
+            reducer_finalized: AtomicUsize::new(0),
+            notes: Mutex::new(vec![]),
+            threads_left_max: AtomicIsize::new(isize::MIN),
+            threads_left_init: AtomicIsize::new(0),
+            stolen: AtomicUsize::new(0),
+        })
+    }
+    fn note(&self, s: String) {
+        self.notes.lock().unwrap().push(s);
+    }
+}
+
+/// Reducer that records what it is fed and fails on its k-th feed.
+struct Rec {
+    sh: Arc<Shared>,
+    fail_at: Option<usize>,
+    n: usize,
+}
+impl Reduce for Rec {
+    type Input = i64;
+    type FeedProduce = i64;
+    type Output = usize;
+    type Error = String;
+    fn feed(&mut self, item: i64) -> Result<i64, String> {
+        let k = self.n;
+        self.n += 1;
+        if self.fail_at == Some(k) {
+            return Err(format!("reducer-fail@{k}"));
+        }
+        self.sh.fed.lock().unwrap().push(item);
+        Ok(item)
+    }
+    fn finalize(self) -> Result<usize, String> {
+        self.sh.reducer_finalized.fetch_add(1, SeqCst);
+        Ok(self.n)
+    }
+}
+
+fn run_helper(w: &Value, sh: Arc<Shared>) {
+    let helper = w["helper"].as_str().unwrap_or("");
+    let n = w["items"].as_u64().unwrap_or(0) as usize;
+    let t = w["threads"].as_u64().unwrap_or(1) as usize;
+    let fail_at = w["fail_at"].as_u64().map(|v| v as usize);
+    let take = w["take"].as_u64().map(|v| v as usize);
+    let consume = {
+        let sh = sh.clone();
+        move |i: usize, st: &mut usize| -> i64 {
+            sh.consumed[i].fetch_add(1, SeqCst);
+            *st += 1;
+            i as i64
+        }
+    };
+    match helper {
+        "in_parallel" | "in_parallel_if" => {
+            let rec = Rec { sh: sh.clone(), fail_at, n: 0 };
+            let res = if helper == "in_parallel" {
+                parallel::in_parallel(0..n, Some(t), |_| 0usize, consume, rec)
+            } else {
+                let cond = w["cond"].as_bool().unwrap_or(true);
+                parallel::in_parallel_if(|| cond, 0..n, Some(t), |_| 0usize, consume, rec)
+            };
+            sh.note(format!("result {res:?}"));
+        }
+        "with_finalize" => {
+            let rec = Rec { sh: sh.clone(), fail_at, n: 0 };
+            let sh2 = sh.clone();
+            let res = parallel::in_parallel_with_finalize(
+                0..n,
+                Some(t),
+                |_| 0usize,
+                consume,
+                move |st: usize| {
+                    sh2.finalized.fetch_add(1, SeqCst);
+                    -1 - st as i64 // finalize outputs are negative: -(count)-1
+                },
+                rec,
+            );
+            sh.note(format!("result {res:?}"));
+        }
+        "with_slice" => {
+            let steal = w["steal"].as_bool().unwrap_or(false);
+            let stop_after = w["periodic_stop_after"].as_u64();
+            let mut items: Vec<u32> = vec![0; n];
+            let sh2 = sh.clone();
+            let sh3 = sh.clone();
+            sh.threads_left_init.store(t as isize, SeqCst);
+            let mut calls = 0u64;
+            let res = parallel::in_parallel_with_slice(
+                &mut items,
+                Some(t),
+                |_| 0usize,
+                move |item: &mut u32, st: &mut usize, threads_left: &AtomicIsize, _stop: &AtomicBool| -> Result<(), String> {
+                    *item += 1;
+                    *st += 1;
+                    let cur = threads_left.load(SeqCst);
+                    sh2.threads_left_max.fetch_max(cur, SeqCst);
+                    if steal && *st >= 1 {
+                        // the work-stealing protocol gix-pack uses: take a thread if one is free, give it back afterwards
+                        if threads_left.fetch_update(SeqCst, SeqCst, |x| (x > 0).then_some(x - 1)).is_ok() {
+                            std::thread::scope(|s| {
+                                s.spawn(|| {
+                                    sh2.stolen.fetch_add(1, SeqCst);
+                                });
+                            });
+                            threads_left.fetch_add(1, SeqCst);
+                            rt::probe("work-stealing-entered");
+                        }
+                    }
+                    if fail_at == Some(*st + 1000) {
+                        unreachable!()
+                    }
+                    Ok(())
+                },
+                move || {
+                    calls += 1;
+                    match stop_after {
+                        Some(k) if calls > k => None,
+                        _ => Some(std::time::Duration::from_millis(10)),
+                    }
+                },
+                |st| st,
+            );
+            let _ = sh3;
+            sh.note(format!("result {res:?}"));
+            sh.note(format!("items {items:?}"));
+        }
+        "with_slice_fail" => {
+            // consumer fails on one specific item
+            let k = fail_at.unwrap_or(0);
+            let mut items: Vec<u32> = (0..n as u32).collect();
+            let sh2 = sh.clone();
+            let res = parallel::in_parallel_with_slice(
+                &mut items,
+                Some(t),
+                |_| 0usize,
+                move |item: &mut u32, st: &mut usize, _tl: &AtomicIsize, _stop: &AtomicBool| -> Result<(), String> {
+                    let idx = *item as usize;
+                    sh2.consumed[idx].fetch_add(1, SeqCst);
+                    *st += 1;
+                    if idx == k {
+                        return Err(format!("consumer-fail@{k}"));
+                    }
+                    Ok(())
+                },
+                || Some(std::time::Duration::from_millis(10)),
+                |st| st,
+            );
+            sh.note(format!("result {res:?}"));
+        }
+        "stepwise" => {
+            let rec = Rec { sh: sh.clone(), fail_at, n: 0 };
+            let sh2 = sh.clone();
+            let mut it = parallel::reduce::Stepwise::new(
+                0..n,
+                Some(t),
+                |_| 0usize,
+                move |i: usize, st: &mut usize| {
+                    sh2.consumed[i].fetch_add(1, SeqCst);
+                    *st += 1;
+                    i as i64
+                },
+                rec,
+            );
+            match take {
+                Some(j) => {
+                    let mut got = vec![];
+                    for _ in 0..j {
+                        match it.next() {
+                            Some(v) => got.push(format!("{v:?}")),
+                            None => break,
+                        }
+                    }
+                    sh.note(format!("took {got:?}"));
+                    drop(it);
+                    sh.note(format!("live-after-drop {}", rt::live_count()));
+                }
+                None => {
+                    let res = it.finalize();
+                    sh.note(format!("result {res:?}"));
+                    sh.note(format!("live-after-drop {}", rt::live_count()));
+                }
+            }
+        }
+        "eager" | "eager_if" => {
+            let chunk = w["chunk"].as_u64().unwrap_or(1) as usize;
+            let in_flight = w["in_flight"].as_u64().unwrap_or(0) as usize;
+            let sh2 = sh.clone();
+            let src = (0..n).inspect(move |&i| {
+                sh2.consumed[i].fetch_add(1, SeqCst);
+            });
+            let mut got = vec![];
+            let lim = take.unwrap_or(usize::MAX);
+            if helper == "eager" {
+                let mut it = parallel::EagerIter::new(src, chunk, in_flight);
+                while got.len() < lim {
+                    match it.next() {
+                        Some(v) => got.push(v),
+                        None => break,
+                    }
+                }
+                drop(it);
+            } else {
+                let cond = w["cond"].as_bool().unwrap_or(true);
+                let mut it = parallel::EagerIterIf::new(|| cond, src, chunk, in_flight);
+                while got.len() < lim {
+                    match it.next() {
+                        Some(v) => got.push(v),
+                        None => break,
+                    }
+                }
+                drop(it);
+            }
+            sh.note(format!("got {got:?}"));
+        }
+        "join" => {
+            let (a, b) = parallel::join(
+                || {
+                    sh.consumed[0].fetch_add(1, SeqCst);
+                    11
+                },
+                || {
+                    sh.consumed[1].fetch_add(1, SeqCst);
+                    22
+                },
+            );
+            sh.note(format!("result ({a},{b})"));
+        }
+        "inorder" => {
+            // results arrive in whatever order the scheduler lets the workers finish; InOrderIter must restore it
+            let sh2 = sh.clone();
+            let it = parallel::reduce::Stepwise::new(
+                0..n,
+                Some(t),
+                |_| 0usize,
+                move |i: usize, _st: &mut usize| -> Result<(usize, i64), String> {
+                    sh2.consumed[i].fetch_add(1, SeqCst);
+                    if fail_at == Some(i) {
+                        Err(format!("item-fail@{i}"))
+                    } else {
+                        Ok((i, i as i64 * 10))
+                    }
+                },
+                parallel::reduce::IdentityWithResult::<(usize, i64), String>::default(),
+            );
+            let mut out = vec![];
+            let mut after_err = 0;
+            let mut seen_err = false;
+            for v in InOrderIter::from(it) {
+                if seen_err {
+                    after_err += 1;
+                }
+                match v {
+                    Ok(x) => out.push(format!("{x}")),
+                    Err(e) => {
+                        seen_err = true;
+                        out.push(format!("E:{e}"));
+                    }
+                }
+            }
+            sh.note(format!("ordered {}", out.join(",")));
+            sh.note(format!("after-err {after_err}"));
+            sh.note(format!("live-after-drop {}", rt::live_count()));
+        }
+        "threads" => {
+            let c = AtomicUsize::new(0);
+            parallel::threads(|s| {
+                for _ in 0..t {
+                    s.spawn(|| {
+                        c.fetch_add(1, SeqCst);
+                    });
+                }
+            });
+            sh.note(format!("result {}", c.load(SeqCst)));
+        }
+        _ => {}
+    }
+}
+
+fn note_val<'a>(notes: &'a [String], key: &str) -> Option<&'a str> {
+    notes.iter().find_map(|n| n.strip_prefix(key).map(|s| s.trim_start()))
+}
+
+fn oracle(w: &Value, sh: &Shared, o: &rt::Outcome, rep: &mut Report) {
+    let helper = w["helper"].as_str().unwrap_or("");
+    let n = w["items"].as_u64().unwrap_or(0) as usize;
+    let t = w["threads"].as_u64().unwrap_or(1) as usize;
+    let fail_at = w["fail_at"].as_u64().map(|v| v as usize);
+    let take = w["take"].as_u64().map(|v| v as usize);
+    let notes = sh.notes.lock().unwrap().clone();
+    let consumed: Vec<usize> = sh.consumed.iter().take(n.max(2)).map(|c| c.load(SeqCst)).collect();
+    let fed = sh.fed.lock().unwrap().clone();
+    let shape = format!("{helper}");
+    if o.deadlock {
+        rep.violate(P, format!("parallel deadlock {shape} | blocked"), format!("threads never finish: {:?}; notes={notes:?}", o.blocked));
+        return;
+    }
+    if o.budget_exceeded {
+        rep.violate(P, format!("parallel livelock {shape} | budget"), format!("step budget exceeded; notes={notes:?}"));
+        return;
+    }
+    if !o.panics.is_empty() {
+        rep.violate(P, format!("parallel panic {shape} | {}", o.panics[0].split(" @ ").next().unwrap_or("")), format!("{:?}", o.panics));
+        return;
+    }
+    // at-most-once, always
+    for (i, c) in consumed.iter().enumerate() {
+        if *c > 1 {
+            rep.violate(P, format!("parallel item-consumed-twice {shape}"), format!("item {i} consumed {c} times; consumed={consumed:?}"));
+            return;
+        }
+    }
+    let result = note_val(&notes, "result").map(str::to_string);
+    match helper {
+        "in_parallel" | "in_parallel_if" | "with_finalize" => {
+            let nfin = if helper == "with_finalize" { t } else { 0 };
+            let total_feeds = n + nfin;
+            let failing = fail_at.filter(|k| *k < total_feeds);
+            match failing {
+                None => {
+                    if result.as_deref() != Some(&format!("Ok({total_feeds})")) {
+                        rep.violate(P, format!("parallel wrong-result {shape}"), format!("expected Ok({total_feeds}), got {result:?}"));
+                    }
+                    if consumed.iter().take(n).any(|c| *c != 1) {
+                        rep.violate(P, format!("parallel item-not-consumed {shape}"), format!("consumed={consumed:?}"));
+                    }
+                    let mut items: Vec<i64> = fed.iter().copied().filter(|v| *v >= 0).collect();
+                    items.sort();
+                    if items != (0..n as i64).collect::<Vec<_>>() {
+                        rep.violate(P, format!("parallel reducer-multiset {shape}"), format!("fed={fed:?}"));
+                    }
+                    if helper == "with_finalize" {
+                        let fins: Vec<i64> = fed.iter().copied().filter(|v| *v < 0).collect();
+                        let sum: i64 = fins.iter().map(|v| -v - 1).sum();
+                        if fins.len() != t || sum != n as i64 || sh.finalized.load(SeqCst) != t {
+                            rep.violate(P, format!("parallel finalize-count {shape}"), format!("finalize outputs {fins:?}, finalize calls {}, threads {t}, items {n}", sh.finalized.load(SeqCst)));
+                        }
+                    }
+                    if sh.reducer_finalized.load(SeqCst) != 1 {
+                        rep.violate(P, format!("parallel reducer-finalize {shape}"), "reducer.finalize not called exactly once".to_string());
+                    }
+                }
+                Some(k) => {
+                    if result.as_deref() != Some(&format!("Err(\"reducer-fail@{k}\")")) {
+                        rep.violate(P, format!("parallel error-lost {shape}"), format!("reducer failed at feed {k} but the call returned {result:?}"));
+                    }
+                    if fed.len() != k {
+                        rep.violate(P, format!("parallel fed-after-error {shape}"), format!("fed={fed:?} k={k}"));
+                    }
+                }
+            }
+        }
+        "with_slice" => {
+            let stopped = w["periodic_stop_after"].as_u64().is_some();
+            let items = note_val(&notes, "items").unwrap_or("").to_string();
+            let processed: Vec<u32> = items.trim_matches(|c| c == '[' || c == ']').split(',').filter_map(|s| s.trim().parse().ok()).collect();
+            if processed.iter().any(|c| *c > 1) {
+                rep.violate(P, format!("parallel item-consumed-twice {shape}"), format!("items={items}"));
+            }
+            match &result {
+                Some(r) if r.starts_with("Ok(") => {
+                    let counts: Vec<usize> = r.trim_start_matches("Ok([").trim_end_matches("])").split(',').filter_map(|s| s.trim().parse().ok()).collect();
+                    let sum: usize = counts.iter().sum();
+                    let done: usize = processed.iter().map(|c| *c as usize).sum();
+                    if sum != done {
+                        rep.violate(P, format!("parallel state-sum {shape}"), format!("thread states {counts:?} do not add up to processed items {items}"));
+                    }
+                    if counts.len() != t {
+                        rep.violate(P, format!("parallel results-per-thread {shape}"), format!("{} results for {t} threads", counts.len()));
+                    }
+                    if !stopped && done != n {
+                        rep.violate(P, format!("parallel item-not-consumed {shape}"), format!("items={items}"));
+                    }
+                }
+                other => rep.violate(P, format!("parallel wrong-result {shape}"), format!("{other:?}")),
+            }
+            let max = sh.threads_left_max.load(SeqCst);
+            if max != isize::MIN && max > t as isize {
+                rep.violate(P, format!("parallel threads-left-imbalance {shape}"), format!("threads_left reached {max} with {t} threads"));
+            }
+        }
+        "with_slice_fail" => {
+            let k = fail_at.unwrap_or(0);
+            if k < n {
+                if result.as_deref() != Some(&format!("Err(\"consumer-fail@{k}\")")) {
+                    rep.violate(P, format!("parallel error-lost {shape}"), format!("consumer failed on item {k} but the call returned {result:?}"));
+                }
+            } else if !result.as_deref().unwrap_or("").starts_with("Ok(") {
+                rep.violate(P, format!("parallel wrong-result {shape}"), format!("{result:?}"));
+            } else if consumed.iter().take(n).any(|c| *c != 1) {
+                rep.violate(P, format!("parallel item-not-consumed {shape}"), format!("consumed={consumed:?}"));
+            }
+        }
+        "stepwise" => {
+            if let Some(l) = note_val(&notes, "live-after-drop") {
+                if l != "1" {
+                    rep.violate(P, format!("parallel threads-survive-drop {shape}"), format!("{l} sim threads alive after the step-wise run was dropped/finalized"));
+                }
+            } else {
+                rep.violate(P, format!("parallel no-return {shape}"), format!("notes={notes:?}"));
+            }
+            match take {
+                None => {
+                    let failing = fail_at.filter(|k| *k < n);
+                    match failing {
+                        None => {
+                            if result.as_deref() != Some(&format!("Ok({n})")) {
+                                rep.violate(P, format!("parallel wrong-result {shape}"), format!("{result:?}"));
+                            }
+                            if consumed.iter().take(n).any(|c| *c != 1) {
+                                rep.violate(P, format!("parallel item-not-consumed {shape}"), format!("consumed={consumed:?}"));
+                            }
+                        }
+                        Some(k) => {
+                            if result.as_deref() != Some(&format!("Err(\"reducer-fail@{k}\")")) {
+                                rep.violate(P, format!("parallel error-lost {shape}"), format!("{result:?}"));
+                            }
+                        }
+                    }
+                }
+                Some(j) => {
+                    let took = note_val(&notes, "took").unwrap_or("");
+                    let cnt = took.matches("Ok(").count() + took.matches("Err(").count();
+                    let expect = j.min(n);
+                    if cnt != expect {
+                        rep.violate(P, format!("parallel stepwise-short {shape}"), format!("asked for {j} of {n}, got {took}"));
+                    }
+                }
+            }
+        }
+        "eager" | "eager_if" => {
+            let got = note_val(&notes, "got").unwrap_or("").to_string();
+            let expect: Vec<usize> = (0..take.unwrap_or(n).min(n)).collect();
+            if got != format!("{expect:?}") {
+                rep.violate(P, format!("parallel eager-order {shape}"), format!("expected {expect:?}, got {got}"));
+            }
+            if o.leaked_at_root_exit > 0 {
+                rep.probe("eager-producer-outlived-consumer");
+            }
+        }
+        "join" => {
+            if result.as_deref() != Some("(11,22)") || consumed[0] != 1 || consumed[1] != 1 {
+                rep.violate(P, format!("parallel wrong-result {shape}"), format!("{result:?} {consumed:?}"));
+            }
+        }
+        "threads" => {
+            if result.as_deref() != Some(&format!("{t}")) {
+                rep.violate(P, format!("parallel wrong-result {shape}"), format!("{result:?}"));
+            }
+        }
+        "inorder" => {
+            let ordered = note_val(&notes, "ordered").unwrap_or("").to_string();
+            let failing = fail_at.filter(|k| *k < n);
+            let items: Vec<&str> = if ordered.is_empty() { vec![] } else { ordered.split(',').collect() };
+            // every Ok must be the next sequence number; an error ends the sequence
+            let mut next = 0usize;
+            for it in &items {
+                if let Some(e) = it.strip_prefix("E:") {
+                    if failing.is_none() {
+                        rep.violate(P, format!("parallel inorder-spurious-error {shape}"), e.to_string());
+                    }
+                    break;
+                }
+                if *it != format!("{}", next as i64 * 10) {
+                    rep.violate(P, format!("parallel inorder-sequence {shape}"), format!("got {ordered}"));
+                    break;
+                }
+                next += 1;
+            }
+            match failing {
+                None => {
+                    if next != n {
+                        rep.violate(P, format!("parallel inorder-incomplete {shape}"), format!("got {ordered} for {n} items"));
+                    }
+                }
+                Some(_) => {
+                    if !ordered.contains("E:") {
+                        rep.violate(P, format!("parallel error-lost {shape}"), format!("got {ordered}"));
+                    }
+                    if note_val(&notes, "after-err") != Some("0") {
+                        rep.violate(P, format!("parallel inorder-after-error {shape}"), format!("got {ordered}"));
+                    }
+                }
+            }
+            if let Some(l) = note_val(&notes, "live-after-drop") {
+                if l != "1" {
+                    rep.violate(P, format!("parallel threads-survive-drop {shape}"), format!("{l} alive"));
+                }
+            }
+        }
+        _ => {}
+    }
+    if note_val(&notes, "result").is_none() && note_val(&notes, "got").is_none() && note_val(&notes, "took").is_none() && note_val(&notes, "ordered").is_none() {
+        rep.violate(P, format!("parallel no-return {shape}"), format!("notes={notes:?} root_panicked={}", o.root_panicked));
+    }
+}
+
 impl Scenario for Parallel {
-    fn name(&self) -> &'static str { "parallel" }
-    fn properties(&self) -> &'static [&'static str] { &["C51"] }
-    fn runs(&self, _t: Tier, _p: &str) -> u64 { 0 }
-    fn generate(&self, _s: u64, _t: Tier, _p: &str) -> Value { json!({}) }
-    fn execute(&self, _w: &Value, _c: &ExecCtx) -> Report { Report::default() }
+    fn name(&self) -> &'static str {
+        "parallel"
+    }
+    fn properties(&self) -> &'static [&'static str] {
+        &[P]
+    }
+    fn runs(&self, tier: Tier, _p: &str) -> u64 {
+        super::tier_pick(tier, 12_000, 1_000_000)
+    }
+    fn generate(&self, seed: u64, _tier: Tier, _p: &str) -> Value {
+        let mut r = Rng::stream(seed, STREAM_WORKLOAD);
+        let mut sw = Rng::stream(seed, STREAM_SWARM);
+        let helpers = ["in_parallel", "in_parallel_if", "with_finalize", "with_slice", "with_slice", "with_slice_fail", "stepwise", "stepwise", "eager", "eager_if", "join", "inorder", "inorder", "threads"];
+        let helper = *r.pick(&helpers);
+        let n = r.below(7);
+        let t = 1 + r.below(4);
+        let mut w = json!({ "helper": helper, "items": n, "threads": t });
+        if r.chance(350) {
+            w["fail_at"] = json!(r.below(n + 2));
+        }
+        match helper {
+            "in_parallel_if" | "eager_if" => w["cond"] = json!(r.chance(700)),
+            _ => {}
+        }
+        match helper {
+            "with_slice" => {
+                w["steal"] = json!(r.chance(500));
+                if r.chance(300) {
+                    w["periodic_stop_after"] = json!(r.below(4));
+                }
+                w["fail_at"] = Value::Null;
+            }
+            "with_slice_fail" => {
+                w["fail_at"] = json!(r.below(n + 1));
+            }
+            "stepwise" => {
+                if r.chance(500) {
+                    w["take"] = json!(r.below(n + 2));
+                }
+            }
+            "eager" | "eager_if" => {
+                w["chunk"] = json!(1 + r.below(3));
+                w["in_flight"] = json!(r.below(3));
+                if r.chance(500) {
+                    w["take"] = json!(r.below(n + 1));
+                }
+            }
+            _ => {}
+        }
+        w["sched"] = super::swarm_policy(&mut sw, 120);
+        w
+    }
+    fn execute(&self, w: &Value, ctx: &ExecCtx) -> Report {
+        let mut rep = Report::default();
+        let mut cfg = ctx.rt_cfg();
+        super::apply_swarm(&mut cfg, w);
+        cfg.max_steps = 50_000;
+        let n = w["items"].as_u64().unwrap_or(0) as usize;
+        let sh = Shared::new(n);
+        let sh2 = sh.clone();
+        let w2 = w.clone();
+        let o = rt::run(cfg, move || run_helper(&w2, sh2));
+        rep.absorb_outcome(&o);
+        rep.ops = 1;
+        oracle(w, &sh, &o, &mut rep);
+        let notes = sh.notes.lock().unwrap().clone();
+        let mut st = Fnv::default();
+        st.write(w["helper"].as_str().unwrap_or("").as_bytes());
+        st.write(notes.join("|").as_bytes());
+        st.write(format!("{:?}", sh.fed.lock().unwrap()).as_bytes());
+        rep.states.push(st.0);
+        rep.log_hash ^= st.0;
+        rep.summary = format!("{} -> {} (threads={} steps={} switches={})", w["helper"], notes.join("; "), o.threads, o.steps, o.switches);
+        rep
+    }
+    fn jobs_hint(&self) -> usize {
+        1
+    }
+    fn shrink(&self, w: &Value) -> Vec<Value> {
+        let mut v = vec![];
+        for key in ["items", "threads", "take", "fail_at", "periodic_stop_after", "chunk", "in_flight"] {
+            if let Some(x) = w[key].as_u64() {
+                let min = if key == "threads" || key == "chunk" { 1 } else { 0 };
+                if x > min {
+                    let mut c = w.clone();
+                    c[key] = json!(x - 1);
+                    v.push(c);
+                }
+            }
+        }
+        if w["steal"].as_bool() == Some(true) {
+            let mut c = w.clone();
+            c["steal"] = json!(false);
+            v.push(c);
+        }
+        v
+    }
+    fn classify_death(&self, how: &str, w: &Value, _p: &str) -> Option<crate::driver::Violation> {
+        if how == "SIGXCPU" {
+            return Some(crate::driver::Violation { property: P.into(), sig: format!("parallel cpu-hang {}", w["helper"].as_str().unwrap_or("")), detail: "run exhausted its CPU limit without reaching a scheduling point".into() });
+        }
+        None
+    }
+    fn real_stub(&self) -> Value {
+        json!({
+            "real": ["gix_features::parallel::* (in_parallel, in_parallel_with_finalize, in_parallel_if, in_parallel_with_slice, reduce::Stepwise, EagerIter, EagerIterIf, InOrderIter, join, threads)", "std::thread (scoped and detached)", "crossbeam-channel", "std::sync::mpsc", "std atomics"],
+            "simulated": ["thread scheduling (baton scheduler over real threads)", "futex wait/wake", "sleep and clocks", "getrandom"],
+            "stub": ["consume / reducer / periodic callbacks (counting closures)"],
+        })
+    }
+    fn rule(&self, _p: &str) -> String {
+        "workloads drawn per seed (helper, 0..6 items, 1..4 workers, failing reducer/consumer position, take-j-then-drop, work stealing, periodic stop) x seeded schedules; non-trivial = >=2 context switches; distinct = distinct (workload, decision list) pairs".into()
+    }
+    fn assumptions(&self, _p: &str) -> Vec<String> {
+        vec![
+            "sequential consistency at scheduling-point granularity (futex calls, yields, sleeps, thread start/exit, labelled hook points)".into(),
+            "sampling of schedules, not enumeration".into(),
+        ]
+    }
 }
